@@ -18,8 +18,19 @@ LIFE_STEPS = 3  # lifespan variant: HA values of the retained candles must be th
 
 def spaces(tier):
     if tier == "quick":
-        return dict(sigma="UDJF", n=5, preloads=(0, 1, 2, 3), horizon=3.0)
-    return dict(sigma="UDJF", n=7, preloads=(0, 1, 2, 3, 5), horizon=6.0)
+        return dict(sigma="UDJFQ", n=5, preloads=(0, 1, 2, 3), horizon=3.0)
+    return dict(sigma="UDJFQ", n=6, preloads=(0, 1, 2, 3, 5), horizon=6.0)
+
+
+def stream(word, off, gaps, tf):
+    """Q is a relative letter: a flat zero-volume candle priced at (o+h+l+c)/4 of the candle before it, i.e. exactly at the
+    Heikin-Ashi close of a bucket that so far holds that one candle (a quiet print that coincides with a converted value)."""
+    raw = raw_stream(word.replace("Q", "F"), off, gaps, tf)
+    for i, w in enumerate(word):
+        if w == "Q" and i > 0:
+            p = sum(raw[i - 1][:4]) / 4
+            raw[i] = (p, p, p, p, 0, raw[i][5])
+    return raw
 
 
 def expected(raw, tf, fill):
@@ -114,7 +125,7 @@ def explore(item):
     for tail in A.words(sp["sigma"], n - 1):
         word = first + tail
         gaps = A.regular_gaps("mix" if fill else "reg", n, A.tf_seconds(tf)) if tf else None
-        raw = raw_stream(word, off if tf else "b", gaps, tf)
+        raw = stream(word, off if tf else "b", gaps, tf)
         for k in sp["preloads"]:
             if k > n:
                 continue
@@ -163,7 +174,7 @@ def main(prop, tier):
              for off in (("+", "b") if tf else ("b",))]
     items += [(prop, tier, tf, fill, host, f, "+", LIFE_STEPS) for (tf, fill) in TFCS[:2] for host in ("ind", "hexd") for f in sp["sigma"]]
     rep = merge_all(pmap(explore, items))
-    rule = ("every word over sigma^n x preload k x every composition of the remaining candles into appends x {base, T2, T2+fill} x host "
+    rule = ("(Q = flat zero-volume candle at the ohlc/4 of its predecessor) every word over sigma^n x preload k x every composition of the remaining candles into appends x {base, T2, T2+fill} x host "
             "{Indicator, Hexital default timeframe, Hexital member timeframe} with candlestick_type=HA; every candle compared with the reference "
             "Heikin-Ashi recurrence over the reference collapse, raw values recoverable from clean_values, tags present, EMA(2) readings within "
             "the interval reference over the converted closes; first candle on and off a bucket boundary; a lifespan variant compares the retained "
